@@ -33,6 +33,7 @@ import (
 	"math"
 	"runtime"
 	"strings"
+	"sync"
 )
 
 type Case struct {
@@ -112,6 +113,32 @@ func Describe(v any) string {
 		return fmt.Sprintf("%v", float64(x))
 	}
 	return fmt.Sprintf("%v", v)
+}
+
+// Concurrently runs f(0) and f(1) in two goroutines (the body must not call intrinsics);
+// under -race a conflicting access of the two is reported by the race detector.
+func Concurrently(f func(i int)) {
+	var wg sync.WaitGroup
+	var mu sync.Mutex
+	var failure any
+	for i := 0; i < 2; i++ {
+		wg.Add(1)
+		go func(i int) {
+			defer wg.Done()
+			defer func() {
+				if r := recover(); r != nil {
+					mu.Lock()
+					failure = r
+					mu.Unlock()
+				}
+			}()
+			f(i)
+		}(i)
+	}
+	wg.Wait()
+	if failure != nil {
+		panic(failure)
+	}
 }
 
 // PanicSite finds the function in which the current panic was raised.
@@ -195,6 +222,7 @@ func vSameBits32(a, b float32) bool { return verifshim.SameBits32(a, b) }
 func vWriteSetBegin()               {}
 func vWriteSetEnd(id string)        {}
 func vObserve(label string, v any)  { verifshim.Observe(label, v) }
+func vConcurrently(f func(i int))   { verifshim.Concurrently(f) }
 `
 
 const driverSrc = `
@@ -361,7 +389,7 @@ func nativeReplay(rel string, cases []replayCase, race bool) ([]string, error) {
 		ctx, cancel := context.WithTimeout(context.Background(), 10*time.Minute)
 		cmd := exec.CommandContext(ctx, bin, "-test.v", "-test.run", "^TestVerifReplay$", "-test.timeout", "8m")
 		cmd.Dir = sc.dir
-		cmd.Env = append(goEnv(), "VERIF_REPLAY_CASES="+cf, "VERIF_REPLAY_START="+strconv.Itoa(start))
+		cmd.Env = append(goEnv(), "VERIF_REPLAY_CASES="+cf, "VERIF_REPLAY_START="+strconv.Itoa(start), "GORACE=halt_on_error=1")
 		var out bytes.Buffer
 		cmd.Stdout = &out
 		cmd.Stderr = &out
@@ -388,7 +416,11 @@ func nativeReplay(rel string, cases []replayCase, race bool) ([]string, error) {
 		start = last + 1
 		if runErr != nil && start < len(cases) && !strings.HasPrefix(outcomes[last], "timeout") {
 			// the process died (fatal error such as stack overflow) on case 'start'
-			outcomes[start] = "crash :: " + firstLine(tail(out.String(), 2000))
+			if strings.Contains(out.String(), "DATA RACE") {
+				outcomes[start] = "race :: DATA RACE reported by the race detector"
+			} else {
+				outcomes[start] = "crash :: " + firstLine(tail(out.String(), 2000))
+			}
 			start++
 		}
 	}
@@ -436,9 +468,11 @@ func outcomeMatches(sig string, native string) bool {
 		return true
 	case strings.HasPrefix(sig, "budget@"):
 		return native == "timeout" || strings.HasPrefix(native, "crash")
+	case strings.HasPrefix(sig, "ws:"):
+		// a write to pre-existing state: confirmed by the race detector on the
+		// two-goroutine replay, or by one of the harness's sequential assertions
+		return strings.HasPrefix(native, "race") || strings.HasPrefix(native, "assert:")
 	default:
-		// write-set signatures carry "@site" after the assertion id
-		id := sig
-		return native == "assert:"+id
+		return native == "assert:"+sig
 	}
 }
